@@ -11,6 +11,8 @@ import z3
 W = 64
 LIM = 1 << 62
 SENTINEL = 0xDEADBEEF
+import os as _os
+SLOW_S = float(_os.environ.get('SX_SLOW_S', '1e9'))
 
 
 class Control(BaseException):
@@ -41,6 +43,8 @@ class Ctx:
         self.pending = []          # (prefix, vals) alternatives discovered on this path
         self.vals = dict(vals)     # decision index -> concretised value chosen there
         self.nq = 0
+        self.nretry = 0
+        self.msolver = self.solver
         self.t = 0.0
         self.ndec = 0              # solver-decided (non-forced) branch decisions
         self.inputs = {}           # name -> proxy (for counterexamples)
@@ -53,11 +57,43 @@ class Ctx:
         self.cuts = 0
 
     def check(self, *extra):
+        """decide satisfiability of path condition (+ extra).  The incremental solver gets a short budget first; on `unknown`
+        the query is re-decided from scratch (fresh solver, other seeds / tactic) with the long budget.  Still `unknown` after
+        that is reported as inconclusive by the caller -- never as success."""
         t = time.time()
         self.nq += 1
-        r = self.solver.check(*extra)
-        self.t += time.time() - t
-        return str(r)
+        self.msolver = self.solver
+        first_ms = int(self.opts.get('first_timeout_ms', 8000))
+        self.solver.set('timeout', first_ms)
+        r = str(self.solver.check(*extra))
+        if r == 'unknown':
+            long_ms = int(self.opts.get('timeout_ms', 120000))
+            for attempt in range(3):
+                self.nretry += 1
+                if attempt == 1:
+                    s2 = z3.Then('simplify', 'solve-eqs', 'qfnra-nlsat').solver() if self.opts.get('nra', True) else z3.Solver()
+                else:
+                    s2 = z3.Solver()
+                s2.set('timeout', long_ms)
+                if attempt != 1:
+                    s2.set('random_seed', 17 * attempt + 3)
+                s2.add(self.solver.assertions())
+                s2.add(*extra)
+                try:
+                    r = str(s2.check())
+                except z3.Z3Exception:
+                    r = 'unknown'
+                if r != 'unknown':
+                    self.msolver = s2
+                    break
+        dt = time.time() - t
+        self.t += dt
+        if dt > SLOW_S:
+            sys.stderr.write('[sx slow query %.1fs -> %s, %d decisions]\n' % (dt, r, len(self.decisions)))
+        return r
+
+    def model(self):
+        return self.msolver.model()
 
     def add(self, *conds):
         self.solver.add(*conds)
@@ -105,7 +141,7 @@ class Ctx:
             else:
                 if self.check() != 'sat':
                     raise OutOfModel('concretise: path infeasible/unknown')
-                mv = self.solver.model().eval(e, model_completion=True)
+                mv = self.model().eval(e, model_completion=True)
                 v = mv.as_signed_long() if z3.is_bv_value(mv) else mv.as_long()
                 self.vals[pos] = v
             if self.decide(e == v):
